@@ -43,6 +43,11 @@ class E(metaclass=M2):
         LOG.append(("E", self, args, kwargs))
     def __len__(self):
         return 0
+class R(metaclass=M2):
+    """re-entrant: constructing R(n) constructs R(n - 1) from inside __init__"""
+    def __init__(self, n):
+        LOG.append(("R", self, (n,), {}))
+        self.inner = R(n - 1) if n > 0 else None
 '''
 CLASSES = ("A", "B", "C", "D", "E")
 # argument forms: name -> (args, kwargs as ordered list of pairs)
@@ -100,10 +105,65 @@ def run(ctx):
                     others = [x for x in live if x != c]
                     cls = f"hashfunc={hf},op={opn},target={'falsy-instance-class' if c == 'E' else 'plain'},form={'hash-colliding' if f in ('minus1', 'minus2') else ('keyword' if f and f.startswith('kw') else 'plain')},other-classes-live={bool(others)}"
                     res.violation("MAP-STEP", qual, cls, f"hash function {hf}, live mappings for key `one`: {live}{' (A also `two`)' if extra_two else ''}, operation {op}: {why}", replay=replay(hf, live, extra_two, op))
+    # ---- re-entrant construction: __init__ of R(n) constructs R(n - 1) while R(n) is not yet stored
+    for hf in ("None", "first"):
+        for prior in ((), ("clear",), ("live-2",)):
+            try:
+                why = reentrant(h, hf, prior)
+            except Unknown as u:
+                res.ob(False)
+                res.undecide(f"re-entrant construction hashfunc={hf} prior={prior}: {u}")
+                continue
+            n += 1
+            res.ob(why is None, sig=("reentrant", hf, prior))
+            if why:
+                res.violation("MAP-STEP", MOD + ".semi_singleton_metaclass.<locals>._SemiSingleton.__call__", f"hashfunc={hf},op=call,re-entrant-constructor,prior={'+'.join(prior) or 'none'}",
+                              f"class R whose __init__(n) constructs R(n - 1), hash function {hf}, prior {prior}: {why}",
+                              replay="from edgegraph.structure.singleton import *\nM = semi_singleton_metaclass()\nclass R(metaclass=M):\n    def __init__(self, n):\n        self.inner = R(n - 1) if n > 0 else None\n"
+                                     "r = R(1)\nprint(R(1) is r, R(0) is r.inner, check_semi_singleton_entry_exists(R, 1) is r, len(list(get_all_semi_singleton_instances(R))))")
     res.rule("MAP-STEP", n)
     common.vacuity(res, "MAP-STEP", 1000)
     res.analysed = common.analysed(ctx, [MOD + "." + f for f in ("semi_singleton_metaclass", "add_mapping", "drop_semi_singleton_mapping", "check_semi_singleton_entry_exists", "get_all_semi_singleton_instances", "clear_semi_singleton")])
     res.explanation = "Each operation maps every reachable state of the per-class key->instance maps to the model's state and returns what the model returns; induction covers every history."
+
+
+def reentrant(h, hf, prior):
+    h.reset()
+    m = h.w.load_text("verif_c17", SRC.replace("@HF@", hf))
+    h.w.mods.pop("verif_c17", None)
+    g = m.globals
+    h.settle()
+    log = g["LOG"]
+    if "live-2" in prior:
+        o = h.call(g["R"], 0)
+        if o.kind != "return":
+            return f"R(0) raises {o.excname}"
+    if "clear" in prior:
+        h.call(g["R"], 0)
+        h.call(g["clear_semi_singleton"], g["R"])
+    before = len(log.items)
+    had0 = "live-2" in prior
+    out = h.call(g["R"], 1)
+    if out.kind != "return":
+        return f"R(1) raises {out.excname}"
+    r1 = out.value
+    inits = [x.items[2].items[0] for x in log.items[before:]]
+    if sorted(inits) != ([1] if had0 else [0, 1]):
+        return f"__init__ ran for arguments {inits}, expected {[1] if had0 else [1, 0]}"
+    r0 = r1.fields.get("inner")
+    for arg, want in ((1, r1), (0, r0)):
+        c = h.call(g["check_semi_singleton_entry_exists"], g["R"], arg)
+        if c.kind != "return" or c.value is not want:
+            return f"afterwards check(R, {arg}) reports {c!r}, not the instance constructed for that key"
+        before = len(log.items)
+        again = h.call(g["R"], arg)
+        if again.kind != "return" or again.value is not want or len(log.items) != before:
+            return f"afterwards R({arg}) returns {again!r} ({'re-ran __init__' if len(log.items) != before else 'another object'}) instead of the live instance"
+    ga = h.call(g["get_all_semi_singleton_instances"], g["R"])
+    items = ga.value.items if ga.kind == "return" and hasattr(ga.value, "items") else None
+    if items is None or len(items) != 2 or not all(any(i is x for x in items) for i in (r0, r1)):
+        return f"get_all(R) reports {ga!r}; live instances are R(1) and R(0)"
+    return None
 
 
 def evaluate(h, hf, live, extra_two, op):
